@@ -39,6 +39,7 @@ FIT_FLOOR = 0.020       # points below 20 ms do not enter the fit
 CONFIRM_MIN = 1.0       # an EDA witness is confirmed if some n takes more than 1 s ...
 CONFIRM_RATIO = 1.8     # ... and time grows at least 1.8x per added pump
 CONFIRM_KILL = 3.3      # >= CONFIRM_RATIO^2 * CONFIRM_MIN: with steps of 2 pumps a killed job always decides the ratio test
+TOTAL_CAP = {'quick': 24, 'thorough': 80}   # reported families over all stages (then later stages are skipped)
 CAP = 30                # stop a stage after this many violating families (broken trees would take hours)
 
 _CTX = {}
@@ -366,6 +367,16 @@ def remeasure(chk, pool, jobs, first, kill, stats):
     return out
 
 
+def _over(chk, stats, label):
+    """Enough has been reported: on a broken tree every further violating family costs seconds of CPU."""
+    n = len(chk.violations) + sum(chk.known_hits.values())
+    if n >= TOTAL_CAP[chk.tier]:
+        if label:
+            stats['truncated'].append('%s skipped: %d violating families already reported' % (label, n))
+        return True
+    return False
+
+
 def _judge(h, L, t, killed):
     """Growth criterion for a new ladder point (L, t) after history h; returns a description or None."""
     if h and (killed or t >= 1.0):
@@ -391,6 +402,8 @@ def measure(chk, pool, fams, kind, label, stats, big=True, group=None, deep_all=
     group = group or label
     what = 'compile()' if kind[0] == 'compile' else label
     nviol = 0
+    if _over(chk, stats, label):
+        return 0
     alive = []
     smallpt = {}
     CH = 250
@@ -423,7 +436,7 @@ def measure(chk, pool, fams, kind, label, stats, big=True, group=None, deep_all=
                 smallpt[f] = (len(text), cpu)
                 alive.append(f)
                 chk.nontrivial(label + '\x00' + fam_text(f, 2))
-        if nviol >= CAP:
+        if nviol >= CAP or _over(chk, stats, None):
             stats['truncated'].append('%s small stage stopped after %d violating families (%d of %d families run)' % (
                 label, nviol, c0 + len(chunk), len(fams)))
             return nviol
@@ -523,7 +536,7 @@ def measure(chk, pool, fams, kind, label, stats, big=True, group=None, deep_all=
             else:
                 nxt.append(f)
         alive = nxt
-        if nviol >= CAP:
+        if nviol >= CAP or _over(chk, stats, None):
             stats['truncated'].append('%s growth stage stopped after %d violating families' % (label, nviol))
             break
     return nviol
